@@ -18,3 +18,56 @@ Proof. exact DecProofs.unmarshal_total. Qed.
 From Verif Require Proto.ScanModel Proto.ScanProofs.
 Theorem scan_total : Proto.ScanModel.scan_total_statement.
 Proof. exact Proto.ScanProofs.scan_total. Qed.
+
+(* ---- unknown fields are skipped (Proto/UnknownSpec.v, Proto/UnknownProofs.v) ----
+   Vocabulary, independent of the struct decoder: [is_field num wt u] = u is exactly one field (tag varint for
+   num*8+wt, minimal or padded, then a complete payload of wire type varint / fixed64 / length-delimited / fixed32);
+   [fields_seq b1] = b1 is a sequence of complete fields; [declared t] = the numbers the compiled struct type matches
+   on (struct tag or position, truncated to 16 bits as the package stores them). Proved directly on the struct decode
+   loop of the model, not through the wire specification of C12: byte arrays, RawMessage fields, maps with pointer
+   values, forced fixed-width codecs, zigzag tags are all covered (hypothesis: type_ok only). *)
+From Verif Require Proto.UnknownSpec Proto.UnknownProofs.
+(* struct decoder level, any prior value of the target and any flags: inserting a complete field with an undeclared
+   number (0 and numbers above 2^16 included) at ANY field boundary of b1 ++ b2 (b2 arbitrary, possibly malformed;
+   the fields of b1 known or unknown, decodable or not) leaves error class, value (with an error: the partially updated
+   target) unchanged; without error both inputs are consumed entirely *)
+Theorem unknown_insert_decode : Proto.UnknownSpec.unknown_insert_decode_statement.
+Proof. exact Proto.UnknownProofs.unknown_insert_decode. Qed.
+(* through Unmarshal: the same result (Some value, or error) -- for a non-empty message or a zero target *)
+Theorem unknown_insert : Proto.UnknownSpec.unknown_insert_statement.
+Proof. exact Proto.UnknownProofs.unknown_insert. Qed.
+(* without that proviso the statement is FALSE (model and Go code): Unmarshal(empty) resets a non-zero target to zero,
+   Unmarshal(unknown fields only) leaves it as it was. Witness: struct{A int64} holding 3, input 48 01 (field 9) *)
+Theorem unknown_insert_any_target_refuted : ~ Proto.UnknownSpec.unknown_insert_any_target_statement.
+Proof. exact Proto.UnknownProofs.unknown_insert_any_target_refuted. Qed.
+(* insertion inside embedded messages at any depth ([widened]: nested structs behind any number of pointers, elements
+   of repeated message fields, map entry messages with a non-empty payload), the length prefix of every enclosing
+   field re-encoded minimal or padded: same error class or none, same value, both consumed entirely.
+   Needs numbers_ok (distinct field numbers) to name the enclosing field *)
+Theorem unknown_nested_decode : Proto.UnknownSpec.unknown_nested_decode_statement.
+Proof. exact Proto.UnknownProofs.unknown_nested_decode. Qed.
+Theorem unknown_nested : Proto.UnknownSpec.unknown_nested_statement.
+Proof. exact Proto.UnknownProofs.unknown_nested. Qed.
+(* any number of such insertions, one after the other *)
+Theorem unknown_nested_many : Proto.UnknownSpec.unknown_nested_many_statement.
+Proof. exact Proto.UnknownProofs.unknown_nested_many. Qed.
+(* FALSE when the payload of a map entry is empty: the package ignores an empty entry (it writes an empty map as one),
+   but reads an entry holding only an unknown field as the entry (zero key -> zero value).
+   Witness: struct{M map[string]int64}, 0a 00 against 0a 02 48 01 *)
+Theorem unknown_nested_any_refuted : ~ Proto.UnknownSpec.unknown_nested_any_statement.
+Proof. exact Proto.UnknownProofs.unknown_nested_any_refuted. Qed.
+(* field boundaries are exactly the points proto.Scan reaches: Scan walks b to its end without error iff b is a
+   sequence of complete fields *)
+Theorem scan_boundary : Proto.UnknownSpec.scan_boundary_statement.
+Proof. exact Proto.UnknownProofs.scan_boundary. Qed.
+Theorem scan_accepts_fields : Proto.UnknownSpec.scan_accepts_fields_statement.
+Proof. exact Proto.UnknownProofs.scan_accepts_fields. Qed.
+(* the vocabulary is inhabited: canonical varints, tags and payloads are fields *)
+Theorem canonical_fields : Proto.UnknownSpec.canonical_fields_statement.
+Proof. exact Proto.UnknownProofs.canonical_fields. Qed.
+(* the route through the specification of C12, as a corollary of c12_unmarshal_reads_every_legal_encoding: two legal
+   encodings of one message (unknown records of numbers 1..max at the top level and inside every embedded message,
+   though not directly inside a map entry, are part of [reencodes]) decode to the same value up to nil-versus-empty.
+   Covers only plain, tags_sane, zz_struct_ok struct types, a zero target and successful decoding *)
+Theorem c12_legal_encodings_agree : Proto.UnknownProofs.c12_legal_encodings_agree_statement.
+Proof. exact Proto.UnknownProofs.c12_legal_encodings_agree. Qed.
